@@ -12,7 +12,6 @@ def setup(c):
 
 PROP = dict(
     id="C14",
-    disabled=True,
     engines=['c14'],
     go_tags=['c11'],
     gen_files={},
